@@ -3,6 +3,7 @@
 package dblookupext
 
 import (
+	"bytes"
 	"fmt"
 	"sync"
 
@@ -153,7 +154,10 @@ func (hr *historyRepository) recordMiniblock(blockHeaderHash []byte, blockHeader
 		return err
 	}
 
-	if hr.hasRecentlyInsertedMiniblockMetadata(miniblockHash, epoch) {
+	if hr.hasRecentlyInsertedMiniblockMetadata(miniblockHash, blockHeaderHash) {
+		// Same miniblock, within the same block, once more: the (possibly patched) metadata record is kept as it is.
+		// The transactions are indexed again, since they might have been indexed for another miniblock (of a competing block) in the meantime.
+		hr.indexTransactionsOfMiniblock(miniblock, miniblockHash)
 		return nil
 	}
 
@@ -173,13 +177,22 @@ func (hr *historyRepository) recordMiniblock(blockHeaderHash []byte, blockHeader
 		DestinationShardID: miniblock.GetReceiverShardID(),
 	}
 
+	// Since a miniblock can be inserted again (within a competing block), the insert must not interleave with the patch operations
+	// performed (on the same record) when consuming notarization notifications.
+	hr.consumePendingNotificationsMutex.Lock()
 	err = hr.putMiniblockMetadata(miniblockHash, miniblockMetadata)
+	hr.consumePendingNotificationsMutex.Unlock()
 	if err != nil {
 		return err
 	}
 
-	hr.markMiniblockMetadataAsRecentlyInserted(miniblockHash, epoch)
+	hr.markMiniblockMetadataAsRecentlyInserted(miniblockHash, blockHeaderHash)
+	hr.indexTransactionsOfMiniblock(miniblock, miniblockHash)
 
+	return nil
+}
+
+func (hr *historyRepository) indexTransactionsOfMiniblock(miniblock *block.MiniBlock, miniblockHash []byte) {
 	for _, txHash := range miniblock.TxHashes {
 		errPut := hr.miniblockHashByTxHashIndex.Put(txHash, miniblockHash)
 		if errPut != nil {
@@ -187,30 +200,29 @@ func (hr *historyRepository) recordMiniblock(blockHeaderHash []byte, blockHeader
 			continue
 		}
 	}
-
-	return nil
 }
 
 func (hr *historyRepository) computeMiniblockHash(miniblock *block.MiniBlock) ([]byte, error) {
 	return core.CalculateHash(hr.marshalizer, hr.hasher, miniblock)
 }
 
-func (hr *historyRepository) hasRecentlyInsertedMiniblockMetadata(miniblockHash []byte, epoch uint32) bool {
-	key := hr.buildKeyOfDeduplicationCacheForInsertMiniblockMetadata(miniblockHash, epoch)
-	return hr.deduplicationCacheForInsertMiniblockMetadata.Has(key)
+// The deduplication cache remembers, for each miniblock, the hash of the block for which its metadata has been inserted last.
+// An insert is skipped only when it repeats the previous one (same miniblock, same block). When the miniblock comes within a different block:
+// - miniblock M added in a fork, then re-added in a competing block of the same epoch, or
+// - miniblock M added in a fork at the end of epoch E, then re-added, on the canonical chain this time, in the next epoch E + 1,
+// the record (metadata, "epochByHashIndex", "miniblockHashByTxHashIndex") is written again, so that the most recently committed block wins.
+func (hr *historyRepository) hasRecentlyInsertedMiniblockMetadata(miniblockHash []byte, blockHeaderHash []byte) bool {
+	value, ok := hr.deduplicationCacheForInsertMiniblockMetadata.Get(miniblockHash)
+	if !ok {
+		return false
+	}
+
+	lastBlockHeaderHash, ok := value.([]byte)
+	return ok && bytes.Equal(lastBlockHeaderHash, blockHeaderHash)
 }
 
-// When building the key for the deduplication cache, we must take into account the epoch as well, in order to handle this case:
-// - miniblock M added in a fork at the end of epoch E,
-// - miniblock M re-added, on the canonical chain this time, in the next epoch E + 1.
-// This way we do not mistakenly ignore to update the "epochByHashIndex".
-func (hr *historyRepository) buildKeyOfDeduplicationCacheForInsertMiniblockMetadata(miniblockHash []byte, epoch uint32) []byte {
-	return []byte(fmt.Sprintf("%d_%x", epoch, miniblockHash))
-}
-
-func (hr *historyRepository) markMiniblockMetadataAsRecentlyInserted(miniblockHash []byte, epoch uint32) {
-	key := hr.buildKeyOfDeduplicationCacheForInsertMiniblockMetadata(miniblockHash, epoch)
-	_ = hr.deduplicationCacheForInsertMiniblockMetadata.Put(key, nil, 0)
+func (hr *historyRepository) markMiniblockMetadataAsRecentlyInserted(miniblockHash []byte, blockHeaderHash []byte) {
+	_ = hr.deduplicationCacheForInsertMiniblockMetadata.Put(miniblockHash, blockHeaderHash, len(blockHeaderHash))
 }
 
 // GetMiniblockMetadataByTxHash will return a history transaction for the given hash from storage
